@@ -2201,7 +2201,7 @@ def _iface(name, what, listed, alias):
             pool = list(ens) + [tn] + ([fn, cn] if what == 'reference' else [])
             items = []
             for n in pool:
-                al = ctx.nm('al') if alias and ctx.rnd.random() < 0.6 else None
+                al = ctx.nm('al') if alias and (n == ens[0] or ctx.rnd.random() < 0.5) else None
                 items.append((n, al))
                 names[n] = al or n
             if alias and not any(a for _, a in items):
